@@ -69,9 +69,17 @@ switch_direction = Contract(
              ("frame", "self.site_num == old_self.site_num and self.den == old_self.den")],
     modifies=["self"])
 
+# move_qnidx seen from the sweep discipline: only labels change (its full contract, incl. QNV at the destination, is `move_qnidx` above, proved for C03/C06)
+move_qnidx_sweep = Contract(
+    "MatrixProduct.move_qnidx", {"self": "rec:MP", "dstidx": "int"}, records=RECORDS_S,
+    requires=["0 <= dstidx", "dstidx <= self.site_num"],
+    ensures=[("m1", "self.qnidx == dstidx"), ("m2", "self.to_right == old_self.to_right"), ("m3", "self.site_num == old_self.site_num"), ("m4", "self.den == old_self.den")],
+    modifies=["self"], notes="call by contract; proved from the current source under the contract `move_qnidx` (C03_proof)")
+
 iter_idx_list_visits = Contract(
     "MatrixProduct.canonicalise", {"self": "rec:MP", "stop_idx": "opt[int]"}, records=RECORDS_S,
-    requires=["self.site_num >= 1", "implies(self.to_right, self.qnidx == 0)", "implies(not self.to_right, self.qnidx == self.site_num - 1)",
+    # since the fix "canonicalise starts from any qn centre" the centre is moved to the sweep start by the function itself: no precondition on qnidx
+    requires=["self.site_num >= 1", "0 <= self.qnidx", "self.qnidx < self.site_num",
               "implies(stop_idx is not None, 0 <= stop_idx and stop_idx < self.site_num)"],
     ensures=[("dense_unchanged", "self.den == old_self.den"),
              ("full_sweep_ends_at_far_end_and_flips",
@@ -81,14 +89,14 @@ iter_idx_list_visits = Contract(
              ("partial_sweep_stops_at_stop_idx", "implies(stop_idx is not None, self.qnidx == stop_idx)"),
              ("partial_sweep_flips_only_at_far_end_after_moving",
               "implies(stop_idx is not None, self.to_right == (old_self.to_right != "
-              "(stop_idx != old_self.qnidx and stop_idx == (self.site_num - 1 if old_self.to_right else 0))))"),
+              "(stop_idx != (0 if old_self.to_right else self.site_num - 1) and stop_idx == (self.site_num - 1 if old_self.to_right else 0))))"),
              ("number_of_sites_unchanged", "self.site_num == old_self.site_num")],
     invariants={"for#0": [("S1-centre-follows-sweep",
                            "self.site_num == old_self.site_num and self.to_right == old_self.to_right and self.den == old_self.den and "
-                           "self.qnidx == (old_self.qnidx + k_idx if self.to_right else old_self.qnidx - k_idx)")]},
+                           "self.qnidx == (k_idx if self.to_right else self.site_num - 1 - k_idx)")]},
     modifies=["self"], inline={"iter_idx_list": "MatrixProduct.iter_idx_list", "_switch_direction": "MatrixProduct._switch_direction"})
 canonicalise = iter_idx_list_visits
-CALLEES_CANO = {"_push_cano": push_cano}
+CALLEES_CANO = {"_push_cano": push_cano, "move_qnidx": move_qnidx_sweep}
 FINGERPRINT_CANO = {"for#0": "for idx in idx_list"}
 
 # ------------------------------------------------------------------------------------------------ compress: which limit applies to which bond (C04)
